@@ -82,6 +82,10 @@ func (r *receivingConnProvider) NewConnection() (net.Conn, error) {
 	// Log a nicer message when shutting down normally
 	if r.lifetime.Err() != nil {
 		r.logger.Info("Listener cancelled due to shutdown")
+		if conn != nil {
+			// Accept won the race with the shutdown: nobody else will ever close this connection
+			_ = conn.Close()
+		}
 		return nil, r.lifetime.Err()
 	}
 	if err != nil {
